@@ -630,8 +630,38 @@ class Translator:
             return self.callfree([st.test]) and all(self.noop(x) for x in st.body + st.orelse)
         return False
 
+    OPTIONAL_ATTRS = {"_senescence_reason", "_started_at", "_last_activity", "_terminated_at", "_created_at",
+                      "max_lifetime", "idle_timeout", "on_phase_change", "on_senescence"}
+
+    def total(self, n):
+        """an expression whose value is dropped (log payload, print argument) must not be able to RAISE: no division /
+        modulo by something that may be zero, no indexing, no attribute of an Optional field (seeded p3: a log payload
+        `restored / deficit` made renew() raise half-way)"""
+        for c in ast.walk(n):
+            if isinstance(c, ast.BinOp) and isinstance(c.op, (ast.Div, ast.FloorDiv, ast.Mod)):
+                r = c.right
+                ok = (isinstance(r, ast.Constant) and isinstance(r.value, (int, float)) and not isinstance(r.value, bool)
+                      and r.value != 0)
+                if (isinstance(r, ast.Call) and isinstance(r.func, ast.Name) and r.func.id == "max" and not r.keywords
+                        and any(isinstance(a, ast.Constant) and isinstance(a.value, (int, float))
+                                and not isinstance(a.value, bool) and a.value > 0 for a in r.args)):
+                    ok = True
+                if not ok:
+                    return False
+            if isinstance(c, ast.BinOp) and isinstance(c.op, (ast.Pow, ast.LShift, ast.RShift, ast.MatMult)):
+                return False
+            if isinstance(c, ast.Subscript) and not isinstance(c.slice, ast.Slice):
+                return False
+            if isinstance(c, ast.Attribute) and is_self(c.value) and c.value.attr in self.OPTIONAL_ATTRS:
+                return False
+            if isinstance(c, (ast.Starred, ast.ListComp, ast.SetComp, ast.DictComp, ast.GeneratorExp)):
+                return False
+        return True
+
     def callfree(self, nodes, allow_fmt=False, allow_now=False):
         for n in nodes:
+            if not self.total(n):
+                return False
             for c in ast.walk(n):
                 if isinstance(c, ast.Call):
                     f = c.func
@@ -788,6 +818,9 @@ class Translator:
         if isinstance(st, ast.Expr) and isinstance(st.value, ast.Call):
             call = st.value
             f = call.func
+            if ((is_self(f, "_log_event") or (isinstance(f, ast.Name) and f.id == "print"))
+                    and not all(self.total(a) for a in call.args + [k.value for k in call.keywords])):
+                bad(st, "payload of a dropped call may raise (division / indexing / attribute of an Optional field)")
             if is_self(f, "on_phase_change") and len(call.args) == 2 and not call.keywords:
                 a, b = self.ex(call.args[0], env), self.ex(call.args[1], env)
                 if a[1] != "phase" or b[1] != "phase":
